@@ -5,8 +5,8 @@ LEVEL = "model_checking"
 
 def run(ck):
     q = ck.quick()
-    fc.run_family(ck, "C01", ["deliver2", "gop1", "nocache1", "stop2"] if q else list(fc.fs.SCENARIOS),
-                  ["C01"], 500 if q else 3000, 0 if q else 6000)
+    fc.run_family(ck, "C01", ["deliver2", "stop3", "flv2", "hevc2"] if q else list(fc.fs.SCENARIOS),
+                  ["C01"], 200 if q else 2000, 600 if q else 20000)
 
 
 META = {
